@@ -875,6 +875,125 @@ def rule_extent_coincidence(rep, res, entry=None, rule="R-DISPATCH"):
                          f"(e.g. as many samples as channels) the other interpretation of the argument is taken")
 
 
+def rule_count_denominator(rep, res, entry=None, rule="R-VALUE", counts=("n", "num", "n_samples", "n_points", "steps", "n_steps", "size")):
+    """a quotient whose denominator is `count − c` (c a positive literal) for a count PARAMETER of the function is a division by zero for
+    count = c (np.linspace and friends handle a single point; a hand-written step does not) unless the function tests that parameter
+    before.  Decided on the syntax of every function the analysed path reaches."""
+    import ast as _ast
+    entry = entry or res.entry
+    fns = {ev.d["callee"] for ev in res.events("call")} | {res.fn}
+    n_inst = 0
+    for fn in sorted(fns, key=lambda f: f.qual):
+        args = fn.node.args
+        params = {a.arg for a in args.posonlyargs + args.args + args.kwonlyargs} & set(counts)
+        if not params:
+            continue
+        guarded = set()
+        for n in _ast.walk(fn.node):
+            if isinstance(n, (_ast.If, _ast.Assert, _ast.IfExp, _ast.While)):
+                for c in _ast.walk(n.test):
+                    if isinstance(c, _ast.Compare):
+                        guarded |= {x.id for x in _ast.walk(c) if isinstance(x, _ast.Name)} & params
+        # locals that hold `count - c`
+        minus = {}
+        def is_minus(e):
+            return isinstance(e, _ast.BinOp) and isinstance(e.op, _ast.Sub) and isinstance(e.left, _ast.Name) and e.left.id in params \
+                and isinstance(e.right, _ast.Constant) and isinstance(e.right.value, int) and e.right.value > 0
+        for n in _ast.walk(fn.node):
+            if isinstance(n, _ast.Assign) and len(n.targets) == 1 and isinstance(n.targets[0], _ast.Name) and is_minus(n.value):
+                minus[n.targets[0].id] = n.value
+        for n in _ast.walk(fn.node):
+            den = n.right if isinstance(n, _ast.BinOp) and isinstance(n.op, (_ast.Div, _ast.FloorDiv, _ast.Mod)) else \
+                n.value if isinstance(n, _ast.AugAssign) and isinstance(n.op, (_ast.Div, _ast.FloorDiv, _ast.Mod)) else None
+            if den is None:
+                continue
+            hit = den if is_minus(den) else minus.get(den.id) if isinstance(den, _ast.Name) else None
+            if hit is None:
+                continue
+            n_inst += 1
+            p_ = hit.left.id
+            if p_ in guarded:
+                rep.holds(rule, "count − c as a denominator is guarded", where=fn.loc(n), construct=norm_text(n)[:90], entry=entry,
+                          config=res.config, msg=f"`{p_}` is tested in {fn.name}")
+            else:
+                rep.violated(rule, "count − c as a denominator is guarded", where=fn.loc(n), construct=norm_text(n)[:90], entry=entry,
+                             config=res.config,
+                             msg=f"`{norm_text(hit)}` divides although `{p_}` = {hit.right.value} is an admissible count: the step is a division "
+                                 f"by zero (inf/NaN intensities, or ZeroDivisionError) where a single point is well defined")
+    return n_inst
+
+
+_PROGRESS_WRAPPERS = {"tqdm", "trange", "track", "progress_bar"}
+
+
+def rule_display_neutral(rep, res, entry=None, rule="R-NOFLOW"):
+    """a display setting (`verbose`) wraps an iteration in a progress bar and selects nothing else: in `bar(IT, …) if verbose else IT'`
+    the two iterables must be the same expression (after inlining the function's single-assignment locals).  Decided on the syntax of
+    every function the analysed path reaches; only selections where one side carries a progress wrapper are instances."""
+    import ast as _ast
+    entry = entry or res.entry
+    fns = {ev.d["callee"] for ev in res.events("call")} | {res.fn}
+    n_inst = 0
+    for fn in sorted(fns, key=lambda f: f.qual):
+        args = fn.node.args
+        params = {a.arg for a in args.posonlyargs + args.args + args.kwonlyargs}
+        disp = {p for p in params if p in ("verbose", "progress", "show_progress", "progressbar")}
+        if not disp:
+            continue
+        assigns = {}
+        for n in _ast.walk(fn.node):
+            if isinstance(n, _ast.Assign) and len(n.targets) == 1 and isinstance(n.targets[0], _ast.Name):
+                assigns.setdefault(n.targets[0].id, []).append(n.value)
+            elif isinstance(n, (_ast.AugAssign, _ast.For, _ast.comprehension)):
+                for t in _ast.walk(n.target):
+                    if isinstance(t, _ast.Name):
+                        assigns.setdefault(t.id, []).extend([None, None])
+        single = {k: v[0] for k, v in assigns.items() if len(v) == 1 and v[0] is not None and k not in params}
+
+        def expand(node, depth=0):
+            class T(_ast.NodeTransformer):
+                def visit_Name(self, n):
+                    if isinstance(n.ctx, _ast.Load) and n.id in single and depth < 4:
+                        return expand(single[n.id], depth + 1)
+                    return n
+            import copy
+            return T().visit(copy.deepcopy(node))
+
+        def strip(node):
+            if isinstance(node, _ast.Call):
+                f = node.func
+                nm = f.id if isinstance(f, _ast.Name) else f.attr if isinstance(f, _ast.Attribute) else None
+                if nm in _PROGRESS_WRAPPERS and node.args:
+                    return node.args[0], True
+            return node, False
+
+        pairs = []
+        for n in _ast.walk(fn.node):
+            if isinstance(n, _ast.IfExp) and {x.id for x in _ast.walk(n.test) if isinstance(x, _ast.Name)} & disp:
+                pairs.append((n, n.body, n.orelse))
+            elif isinstance(n, _ast.If) and n.orelse and {x.id for x in _ast.walk(n.test) if isinstance(x, _ast.Name)} & disp \
+                    and len(n.body) == 1 and len(n.orelse) == 1 and all(
+                        isinstance(b, _ast.Assign) and len(b.targets) == 1 and isinstance(b.targets[0], _ast.Name) for b in (n.body[0], n.orelse[0])) \
+                    and n.body[0].targets[0].id == n.orelse[0].targets[0].id:
+                pairs.append((n, n.body[0].value, n.orelse[0].value))
+        for node, a, b in pairs:
+            a0, wa = strip(a)
+            b0, wb = strip(b)
+            if not (wa or wb):
+                continue
+            n_inst += 1
+            ta, tb = norm_text(expand(a0)), norm_text(expand(b0))
+            if ta == tb:
+                rep.holds(rule, "progress display selects nothing but the display", where=fn.loc(node), construct=norm_text(node)[:100],
+                          entry=entry, config=res.config, msg=f"both sides iterate over `{ta[:80]}`")
+            else:
+                rep.violated(rule, "progress display selects nothing but the display", where=fn.loc(node), construct=norm_text(node)[:100],
+                             entry=entry, config=res.config,
+                             msg=f"with the progress bar the loop runs over `{ta[:90]}`, without it over `{tb[:90]}`: the display setting "
+                                 f"`{', '.join(sorted(disp))}` changes which batches are solved")
+    return n_inst
+
+
 def rule_block_cover(rep, res, entry=None, rule="R-COVER"):
     """a result buffer filled block by block — `for i in range(n // k): buf[i*k:(i+1)*k] = …` — covers only the ⌊n/k⌋ full blocks:
     the trailing n mod k entries keep their initial value (NaN / 0) unless the remainder is handled after the loop or the trip count
@@ -1124,6 +1243,49 @@ def rule_pair_orientation(rep, res, entry=None, rule="R-COVER"):
                       msg="pairs are enumerated once each (combinations(…, 2)) and a pair is skipped when its members are in the 'wrong' order: "
                           "pairs that arrive in that order are never considered (with ordered pairs the test only picks the orientation)")
     return n
+
+
+def rule_facet_pairs(rep, model, mod="dreye.api.project", entry=None, rule="R-COVER"):
+    """the slice of a hull at a given total is spanned by the crossing points of ALL its edges; the edges are the pairs of vertices of
+    each facet (every pair of a simplicial facet is an edge).  A loop over the facets (`for e in hull.simplices`) must therefore visit
+    every pair of e — `product(e, e)`, `combinations(e, 2)`, `permutations(e, 2)` or two nested loops — not only consecutive vertices
+    (`zip(e, np.roll(e, -1))`, `zip(e[:-1], e[1:])`), which is complete for triangles only."""
+    n_inst = 0
+    fns = [f for f in model.all_funcs() if f.module.name == mod]
+    for fn in fns:
+        for outer in ast.walk(fn.node):
+            if not (isinstance(outer, ast.For) and isinstance(outer.target, ast.Name)
+                    and any(isinstance(x, ast.Attribute) and x.attr == "simplices" for x in ast.walk(outer.iter))):
+                continue
+            e = outer.target.id
+            def over_e(node):
+                return e in {x.id for x in ast.walk(node) if isinstance(x, ast.Name)}
+            for inner in ast.walk(outer):
+                if inner is outer or not isinstance(inner, ast.For) or not over_e(inner.iter):
+                    continue
+                tg = inner.target
+                it = inner.iter
+                where = fn.loc(inner)
+                ent = entry or fn.name
+                if isinstance(tg, ast.Tuple) and len(tg.elts) == 2:
+                    n_inst += 1
+                    nm = None
+                    if isinstance(it, ast.Call):
+                        nm = it.func.id if isinstance(it.func, ast.Name) else it.func.attr if isinstance(it.func, ast.Attribute) else None
+                    if nm in ("product", "combinations", "permutations", "combinations_with_replacement"):
+                        rep.holds(rule, "every pair of a facet's vertices is visited", where=where, construct=norm_text(it)[:80], entry=ent)
+                    elif nm in ("zip", "pairwise"):
+                        rep.violated(rule, "every pair of a facet's vertices is visited", where=where, construct=norm_text(it)[:80], entry=ent,
+                                     msg="only consecutive vertices of each facet are paired: a facet of a hull in ≥ 4 dimensions is a simplex with "
+                                         "more edges than vertices, so edges (and their crossing points with the requested total) are lost — the "
+                                         "slice is a strict subset of the gamut's slice")
+                    else:
+                        rep.undecided(rule, "every pair of a facet's vertices is visited", where=where, construct=norm_text(it)[:80], entry=ent)
+                elif isinstance(tg, ast.Name) and any(isinstance(x, ast.For) and x is not inner and isinstance(x.target, ast.Name) and over_e(x.iter)
+                                                      for x in ast.walk(inner)):
+                    n_inst += 1
+                    rep.holds(rule, "every pair of a facet's vertices is visited", where=where, construct="nested loops over " + e, entry=ent)
+    return n_inst
 
 
 def rule_alias(rep, model, mod, cls, alias, target, entry=None, rule="R-FORWARD"):
